@@ -144,4 +144,135 @@ theorem readFeature_props (reg : Registry) (f : QFeature) (h : propsDistinct f.p
     readFeature reg f = ⟨f.key, f.loc, readProps reg f.props⟩ := by
   simp only [readFeature, propsOfItems_readItems reg f.props h]
 
+/-! ### what `Props.Add` builds, whatever the items -/
+
+theorem heads_propsAdd (ps : List (List Bytes)) (k v : Bytes) (hne : ∀ r ∈ ps, r ≠ []) :
+    ∀ h ∈ (propsAdd ps k v).map (fun row => row.headD []), h ∈ ps.map (fun row => row.headD []) ∨ h = k := by
+  induction ps with
+  | nil => intro h hh; simp [propsAdd] at hh; exact Or.inr hh
+  | cons row rest ih =>
+    intro h hh
+    simp only [propsAdd] at hh
+    split at hh
+    · rename_i hk
+      left
+      have : (row ++ [v]).headD [] = row.headD [] := by
+        cases row with
+        | nil => exact absurd rfl (hne [] (by simp))
+        | cons a b => rfl
+      simp only [List.map_cons, List.mem_cons, this] at hh ⊢
+      exact hh
+    · simp only [List.map_cons, List.mem_cons] at hh ⊢
+      rcases hh with hh | hh
+      · exact Or.inl (Or.inl hh)
+      · rcases ih (fun r hr => hne r (by simp [hr])) h hh with h1 | h1
+        · exact Or.inl (Or.inr h1)
+        · exact Or.inr h1
+
+theorem propsAdd_norm (ps : List (List Bytes)) (k v : Bytes) (h : propsNorm ps = true) :
+    propsNorm (propsAdd ps k v) = true := by
+  induction ps with
+  | nil => simp [propsAdd, propsNorm, distinctB]
+  | cons row rest ih =>
+    have hrest : propsNorm rest = true := by
+      simp only [propsNorm, List.all_cons, List.map_cons, distinctB, Bool.and_eq_true] at h ⊢
+      exact ⟨h.1.2, h.2.2⟩
+    have hne : ∀ r ∈ rest, r ≠ [] := propsOk_ne rest (propsNorm_ok rest hrest)
+    simp only [propsNorm, List.all_cons, List.map_cons, Bool.and_eq_true, decide_eq_true_eq] at h
+    obtain ⟨⟨hlen, hall⟩, hd⟩ := h
+    rw [distinctB_nodup, List.nodup_cons] at hd
+    simp only [propsAdd]
+    split
+    · rename_i hk
+      have hhead : (row ++ [v]).headD [] = row.headD [] := by
+        cases row with
+        | nil => simp at hlen
+        | cons a b => rfl
+      simp only [propsNorm, List.all_cons, List.map_cons, Bool.and_eq_true, decide_eq_true_eq, hhead,
+        List.length_append, List.length_cons, List.length_nil]
+      refine ⟨⟨by omega, hall⟩, ?_⟩
+      rw [distinctB_nodup, List.nodup_cons]
+      exact hd
+    · rename_i hk
+      have ih' := ih hrest
+      simp only [propsNorm, Bool.and_eq_true] at ih'
+      simp only [propsNorm, List.all_cons, List.map_cons, Bool.and_eq_true, decide_eq_true_eq]
+      refine ⟨⟨hlen, ih'.1⟩, ?_⟩
+      rw [distinctB_nodup, List.nodup_cons]
+      refine ⟨?_, (distinctB_nodup _).mp ih'.2⟩
+      intro hm
+      rcases heads_propsAdd rest k v hne _ hm with h1 | h1
+      · exact hd.1 h1
+      · apply hk
+        cases row with
+        | nil => simp at hlen
+        | cons a b => simp at h1 ⊢; exact h1
+
+/-- every `Props` the reader builds is what `Props.Add` builds -/
+theorem propsOfItems_norm (qs : List (Bytes × Bytes)) : propsNorm (propsOfItems qs) = true := by
+  unfold propsOfItems
+  suffices hs : ∀ acc, propsNorm acc = true → propsNorm (qs.foldl (fun ps q => propsAdd ps q.1 q.2) acc) = true from
+    hs [] (by simp [propsNorm, distinctB])
+  induction qs with
+  | nil => intro acc h; exact h
+  | cons q qs ih => intro acc h; exact ih _ (propsAdd_norm acc q.1 q.2 h)
+
+/-- every value of every row satisfies `Q name value` -/
+def RowsQ (Q : Bytes → Bytes → Prop) (ps : List (List Bytes)) : Prop :=
+  ∀ row ∈ ps, ∀ w ∈ row.tail, Q (row.headD []) w
+
+theorem propsAdd_rowsQ (Q : Bytes → Bytes → Prop) (ps : List (List Bytes)) (k v : Bytes)
+    (h : RowsQ Q ps) (hq : Q k v) : RowsQ Q (propsAdd ps k v) := by
+  induction ps with
+  | nil =>
+    intro row hrow w hw
+    simp only [propsAdd, List.mem_singleton] at hrow
+    subst hrow
+    simp only [List.tail_cons, List.mem_singleton] at hw
+    subst hw
+    exact hq
+  | cons r rest ih =>
+    have hrest : RowsQ Q rest := fun row hrow => h row (by simp [hrow])
+    simp only [propsAdd]
+    split
+    · rename_i hk
+      intro row hrow w hw
+      rcases List.mem_cons.mp hrow with rfl | hrow
+      · cases r with
+        | nil => simp at hk
+        | cons a b =>
+          simp only [List.head?_cons, Option.some.injEq] at hk
+          subst hk
+          simp only [List.cons_append, List.tail_cons, List.mem_append, List.mem_singleton] at hw
+          rcases hw with hw | hw
+          · exact h (a :: b) (by simp) w hw
+          · subst hw; exact hq
+      · exact hrest row hrow w hw
+    · intro row hrow w hw
+      rcases List.mem_cons.mp hrow with rfl | hrow
+      · exact h row (by simp) w hw
+      · exact ih hrest row hrow w hw
+
+theorem propsOfItems_rowsQ (Q : Bytes → Bytes → Prop) (qs : List (Bytes × Bytes)) (h : ∀ q ∈ qs, Q q.1 q.2) :
+    RowsQ Q (propsOfItems qs) := by
+  unfold propsOfItems
+  suffices hs : ∀ acc, RowsQ Q acc → RowsQ Q (qs.foldl (fun ps q => propsAdd ps q.1 q.2) acc) from
+    hs [] (fun row hrow => by simp at hrow)
+  induction qs with
+  | nil => intro acc ha; exact ha
+  | cons q qs ih =>
+    intro acc ha
+    exact ih (fun x hx => h x (by simp [hx])) _ (propsAdd_rowsQ Q acc q.1 q.2 ha (h q (by simp)))
+
+theorem rowsQ_items (Q : Bytes → Bytes → Prop) (ps : List (List Bytes)) (h : RowsQ Q ps) :
+    ∀ kv ∈ ps.flatMap rowItems, Q kv.1 kv.2 := by
+  intro kv hkv
+  obtain ⟨row, hrow, hkv⟩ := List.mem_flatMap.mp hkv
+  cases row with
+  | nil => simp [rowItems] at hkv
+  | cons key vs =>
+    simp only [rowItems, List.mem_map] at hkv
+    obtain ⟨v, hv, rfl⟩ := hkv
+    exact h (key :: vs) hrow v hv
+
 end Gts.GenBank
